@@ -285,6 +285,17 @@ func relevant(scn *Scenario) []int {
 	return out
 }
 
+// putSubs are the subdirectories the action ids and contents of the generators map to.
+var putSubs = func() map[int]bool {
+	m := map[int]bool{}
+	for k := 0; k < 8; k++ {
+		ia, _ := indexPath(k)
+		id, _ := dataPathOf(outputID(k))
+		m[ia], m[id] = true, true
+	}
+	return m
+}()
+
 var allSubs = func() []int {
 	var l []int
 	for i := 0; i < 256; i++ {
@@ -412,6 +423,9 @@ func (rn *runner) runScenario(scn *Scenario) *Outcome {
 		}
 	}
 	for _, i := range scn.Missing {
+		if putSubs[i&255] {
+			continue // a Put into a deleted subdirectory fails; that is not what is modelled here
+		}
 		os.Remove(filepath.Join(dir, subName(i&255))) // succeeds only when empty
 	}
 	s0 := snapshot(dir, subs)
